@@ -1272,6 +1272,61 @@ def c_stage(ctx, vlib) -> None:
     ctx.log(f"C: {len(cases)} parameter lists x 2 modes, {n_hyp} within the theorem's hypotheses, {bad} disagreements")
 
 
+# ---------------------------------------------------------------- the model's parser vs CPython's grammar
+PIECES = ["/", "*", "{n}", "{n}=1", "{n}: int", "{n}: int = 1", "*{n}", "**{n}", "*{n}=1", "**{n}: int"]
+
+
+def piece_tokens(form: str, n: str) -> str:
+    t = {"/": "[TSlash]", "*": "[TStar]", "{n}": '[TId "N"]', "{n}=1": '[TId "N"; TEq false; TExpr "1"]', "{n}: int": '[TId "N"; TColon; TExpr "int"]',
+         "{n}: int = 1": '[TId "N"; TColon; TExpr "int"; TEq true; TExpr "1"]', "*{n}": '[TStar; TId "N"]', "**{n}": '[TDblStar; TId "N"]',
+         "*{n}=1": '[TStar; TId "N"; TEq false; TExpr "1"]', "**{n}: int": '[TDblStar; TId "N"; TColon; TExpr "int"]'}[form]
+    return t.replace('"N"', f'"{n}"')
+
+
+def grammar_stage(ctx, vlib) -> None:
+    import itertools
+    rng = vlib.Rng(ctx.seed, "C19-grammar")
+    seqs: list[tuple[str, ...]] = [()]
+    for k in (1, 2, 3):
+        seqs += list(itertools.product(PIECES, repeat=k))
+    for _ in range(ctx.n(800, 6000)):
+        seqs.append(tuple(rng.choice(PIECES) for _ in range(rng.randint(4, 7))))
+    exprs, texts = [], []
+    for sq in seqs:
+        names = [f"p{j}" for j in range(len(sq))]
+        texts.append(", ".join(f.replace("{n}", n) for f, n in zip(sq, names)))
+        toks = " ++ [TComma] ++ ".join(piece_tokens(f, n) for f, n in zip(sq, names)) or "[]"
+        exprs.append(f"match parse_sig ({toks}) with Some r => Some (map pname (posonly r), map pname (args r), option_map pname (vararg r), "
+                     f"map pname (kwonly r), option_map pname (kwarg r)) | None => None end")
+    hdr = "From Coq Require Import List String Bool.\nFrom C19 Require Import Sig.\nImport ListNotations.\nOpen Scope string_scope.\n"
+    res = ctx.eval_cases("grammar", hdr, exprs)
+    if res is None:
+        return
+    bad = valid = 0
+    for text, r in zip(texts, res):
+        sh = ast_shape(text)
+        if r == "None":
+            got = None
+        else:
+            g = re.match(r"^Some \((\[.*?\]), (\[.*?\]), (None|Some \"[^\"]*\"), (\[.*?\]), (None|Some \"[^\"]*\")\)$", r)
+            if not g:
+                ctx.broke("C", "cannot read parser output", r[:200])
+                return
+            f = lambda x: re.findall(r'"([^"]*)"', x)  # noqa
+            got = (f(g.group(1)), f(g.group(2)), (f(g.group(3)) or [None])[0], f(g.group(4)), (f(g.group(5)) or [None])[0])
+        want = tuple(sh[:5]) if sh is not None else None
+        valid += want is not None
+        if got != want:
+            bad += 1
+            if bad <= 5:
+                ctx.broke("C", "model parser vs CPython grammar", f"`def f({text})`: model {got}, CPython {want}")
+    ctx.add("evaluations", len(seqs))
+    ctx.cov["C_grammar_lists"] = len(seqs)
+    ctx.cov["C_grammar_lists_valid_python"] = valid
+    ctx.cov["C_grammar_disagreements"] = bad
+    ctx.log(f"C: parser of Sig.v vs ast.parse on {len(seqs)} parameter lists ({valid} valid), {bad} disagreements")
+
+
 # =====================================================================================
 # C: model (coq/C19/Imports.v) vs the real ImportTracker
 # =====================================================================================
@@ -1427,6 +1482,7 @@ def run(ctx) -> None:
     ctx.prove("C19/Properties.v", ["C19"])
     if os.environ.get("C19_SKIP_C") != "1":
         c_stage(ctx, vlib)
+        grammar_stage(ctx, vlib)
         it_stage(ctx, vlib)
     if os.environ.get("C19_SKIP_S") != "1":
         s_stage(ctx, vlib)
